@@ -2,11 +2,16 @@ package compaction
 
 import (
 	"bytes"
+	"sync"
 	"time"
 )
 
 // TombstoneTracker implements the TombstoneManager interface
 type TombstoneTracker struct {
+	// Protects deletions and preserveForever: tombstones are added by
+	// concurrent Delete callers while the compaction worker reads them
+	mu sync.RWMutex
+
 	// Map of deleted keys with deletion timestamp
 	deletions map[string]time.Time
 
@@ -28,17 +33,24 @@ func NewTombstoneTracker(retentionPeriod time.Duration) *TombstoneTracker {
 
 // AddTombstone records a key deletion
 func (t *TombstoneTracker) AddTombstone(key []byte) {
+	t.mu.Lock()
+	defer t.mu.Unlock()
 	t.deletions[string(key)] = time.Now()
 }
 
 // ForcePreserveTombstone marks a tombstone to be preserved indefinitely
 // This is primarily used for testing purposes
 func (t *TombstoneTracker) ForcePreserveTombstone(key []byte) {
+	t.mu.Lock()
+	defer t.mu.Unlock()
 	t.preserveForever[string(key)] = true
 }
 
 // ShouldKeepTombstone checks if a tombstone should be preserved during compaction
 func (t *TombstoneTracker) ShouldKeepTombstone(key []byte) bool {
+	t.mu.RLock()
+	defer t.mu.RUnlock()
+
 	strKey := string(key)
 
 	// First check if this key is in the preserveForever map
@@ -58,6 +70,9 @@ func (t *TombstoneTracker) ShouldKeepTombstone(key []byte) bool {
 
 // CollectGarbage removes expired tombstone records
 func (t *TombstoneTracker) CollectGarbage() {
+	t.mu.Lock()
+	defer t.mu.Unlock()
+
 	now := time.Now()
 	for key, timestamp := range t.deletions {
 		if now.Sub(timestamp) > t.retention {
